@@ -91,13 +91,21 @@ fn render(f: &[&str]) -> Option<(Palette, String)> {
     // `min_width_px`, whose only effect is on the masked width attribute) chosen from the input
     let h = input.bytes().fold(7u32, |a, b| a.wrapping_mul(31).wrapping_add(b as u32));
     let minw = [720usize, 720, 10, 2000][(h % 4) as usize];
-    let mut term = Term::new();
+    // a requested value that IS the documented default of `Term::new()` (VGA palette, white on
+    // black, background on, 720 px) is left to `Term::new()` / `Term::default()` for half of the inputs
+    let keep_defaults = (h / 20) % 2 == 0;
+    let mut term = if (h / 40) % 2 == 0 { Term::new() } else { Term::default() };
     for k in 0..5 {
         term = match (k + h / 4) % 5 {
+            0 if keep_defaults && f[0] == "vga" => term,
             0 => term.palette(palette),
+            1 if keep_defaults && f[1] == "a7" => term,
             1 => term.fg_color(fg),
+            2 if keep_defaults && f[2] == "a0" => term,
             2 => term.bg_color(bg),
+            3 if keep_defaults && background => term,
             3 => term.background(background),
+            _ if keep_defaults && minw == 720 => term,
             _ => term.min_width_px(minw),
         };
     }
